@@ -253,6 +253,23 @@ macro_rules! ch {
     }};
 }
 
+/// The re-set flavour of a report block: every setter first called with another value - the cumulative loss with one
+/// that does not fit 24 bits - and the fraction lost set before, not after, the cumulative loss is corrected.
+pub fn rb_builder_reset(b: &Rb) -> ReportBlockBuilder {
+    ReportBlock::builder(b.ssrc)
+        .fraction_lost(b.fraction)
+        .cumulative_lost(0xAB00_0000 | (b.cum ^ 0x55))
+        .cumulative_lost(b.cum)
+        .extended_sequence_number(!b.ext_seq)
+        .extended_sequence_number(b.ext_seq)
+        .interarrival_jitter(!b.jitter)
+        .interarrival_jitter(b.jitter)
+        .last_sender_report_timestamp(!b.lsr)
+        .last_sender_report_timestamp(b.lsr)
+        .delay_since_last_sender_report_timestamp(!b.dlsr)
+        .delay_since_last_sender_report_timestamp(b.dlsr)
+}
+
 pub fn rb_builder(b: &Rb) -> ReportBlockBuilder {
     ReportBlock::builder(b.ssrc)
         .fraction_lost(b.fraction)
@@ -310,14 +327,23 @@ pub fn chunk_builder_cow(c: &Chunk) -> SdesChunkBuilder<'static> {
 }
 
 pub fn chunk_builder_p<'a>(c: &'a Chunk, owned: bool, on: bool) -> SdesChunkBuilder<'a> {
-    if !on {
+    chunk_builder_pr(c, owned, on, false)
+}
+
+/// `rs`: the re-set flavour - an item that gets a prefix is first given one that is too long (300 bytes)
+pub fn chunk_builder_pr<'a>(c: &'a Chunk, owned: bool, on: bool, rs: bool) -> SdesChunkBuilder<'a> {
+    if !on && !rs {
         return chunk_builder(c, owned);
     }
+    static LONG_PREFIX: [u8; 300] = [b'p'; 300];
     let mut cb = pr_chunk(SdesChunk::builder(c.ssrc), on);
     for (i, it) in c.items.iter().enumerate() {
         let on = on && probe_at(i, c.items.len());
         let mut b = pr_item(SdesItem::builder(it.ty, as_str(&it.value)), on);
         if !it.prefix.is_empty() {
+            if rs {
+                b = pr_item(b.prefix(&LONG_PREFIX[..]), on);
+            }
             b = pr_item(b.prefix(&it.prefix[..]), on);
         }
         cb = pr_chunk(if owned { cb.add_item_owned(b) } else { cb.add_item(b) }, on);
@@ -441,7 +467,7 @@ pub fn with_writer(p: &Pkt, var: Variant, f: &mut dyn FnMut(&dyn RtcpPacketWrite
                 b = pr(b.padding(*pad), on);
             }
             for (i, rb) in blocks.iter().enumerate() {
-                b = pr(b.add_report_block(rb_builder(rb)), on && probe_at(i, blocks.len()));
+                b = pr(b.add_report_block(if rs { rb_builder_reset(rb) } else { rb_builder(rb) }), on && probe_at(i, blocks.len()));
             }
             if var.pad_last {
                 b = pr(b.padding(*pad), on);
@@ -455,7 +481,7 @@ pub fn with_writer(p: &Pkt, var: Variant, f: &mut dyn FnMut(&dyn RtcpPacketWrite
             }
             let mut b = if var.pad_last { b } else { pr(b.padding(*pad), on) };
             for (i, rb) in blocks.iter().enumerate() {
-                b = pr(b.add_report_block(rb_builder(rb)), on && probe_at(i, blocks.len()));
+                b = pr(b.add_report_block(if rs { rb_builder_reset(rb) } else { rb_builder(rb) }), on && probe_at(i, blocks.len()));
             }
             if var.pad_last {
                 b = pr(b.padding(*pad), on);
@@ -470,7 +496,7 @@ pub fn with_writer(p: &Pkt, var: Variant, f: &mut dyn FnMut(&dyn RtcpPacketWrite
             let mut b = if var.pad_last { b } else { pr(b.padding(*pad), on) };
             for (i, c) in chunks.iter().enumerate() {
                 let on = on && probe_at(i, chunks.len());
-                b = pr(b.add_chunk(if var.cow { chunk_builder_cow(c) } else { chunk_builder_p(c, var.owned, on) }), on);
+                b = pr(b.add_chunk(if var.cow { chunk_builder_cow(c) } else { chunk_builder_pr(c, var.owned, on, rs) }), on);
             }
             if var.pad_last {
                 b = pr(b.padding(*pad), on);
@@ -485,6 +511,11 @@ pub fn with_writer(p: &Pkt, var: Variant, f: &mut dyn FnMut(&dyn RtcpPacketWrite
             let mut b = if var.pad_last { b } else { pr(b.padding(*pad), on) };
             for (i, s) in ssrcs.iter().enumerate() {
                 b = pr(b.add_source(*s), on && probe_at(i, ssrcs.len()));
+            }
+            // the re-set flavour gives a reason first that is too long (300 bytes), through the other of the two setters
+            const LONG_REASON: &str = "this reason is longer than the two hundred and fifty-five bytes a BYE packet can carry: aaaaaaaaaaaaaaaaaaaaaaaaaaaaaaaaaaaaaaaaaaaaaaaaaaaaaaaaaaaaaaaaaaaaaaaaaaaaaaaaaaaaaaaaaaaaaaaaaaaaaaaaaaaaaaaaaaaaaaaaaaaaaaaaaaaaaaaaaaaaaaaaaaaaaaaaaaaaaaaaaaaaaaaaaaaaaaaaaaaaaaaaaaaaaaaaaaaaaaaaaaaaaaaaaaaaaaaaaaaaa";
+            if rs && (var.owned || !reason.is_empty()) {
+                b = pr(if ssrcs.len() % 2 == 0 { b.reason(LONG_REASON) } else { b.reason_owned(LONG_REASON) }, on);
             }
             if var.owned {
                 let mut b = pr(if reason.is_empty() { b.reason_owned("") } else { b.reason_owned(reason.as_str()) }, on);
